@@ -12,7 +12,8 @@ MOD = "server/Builder.tla"
 TMOD = "server/BuilderTrace.tla"
 NEGS = {"NEG_builder_TokenPerCall.cfg": ["B_TokensArePositions", "C01_OwnListenersService"],
         "NEG_builder_TokenForFailed.cfg": ["B_TokensArePositions", "B_NoPanic"],
-        "NEG_builder_UdsKeepsToken.cfg": ["B_TokensArePositions", "B_NoPanic"]}
+        "NEG_builder_UdsKeepsToken.cfg": ["B_TokensArePositions", "B_NoPanic"],
+        "NEG_builder_ServeWhilePending.cfg": ["C07_NoCallWhilePending"]}
 
 
 def script(rng, lay, with_die=True):
@@ -28,6 +29,16 @@ def script(rng, lay, with_die=True):
         ev.append({"k": "fail", "c": c})
         rng.shuffle(order)
         ev += [{"k": "conn", "s": p} for p in order]
+    # application back-pressure: the services of one (then two) calls answer Pending; clients on two or three sockets
+    # must wait and are served, each by its own listener's service, when the last pending call is ready again
+    cs = rng.sample(range(1, ncalls + 1), min(ncalls, rng.choice([1, 1, 2])))
+    for c in cs:
+        ev.append({"k": "pend", "c": c})
+    rng.shuffle(order)
+    ev += [{"k": "conn", "s": p} for p in order[:3]]
+    for c in cs:
+        ev.append({"k": "unpend", "c": c})
+    ev += [{"k": "conn", "s": p} for p in order[:2]]
     if with_die:
         ev.append({"k": "die", "s": rng.randint(1, n)})
         for _ in range(2):
